@@ -1,5 +1,6 @@
 import Invoke.Lemmas.Collection
 import Invoke.Lemmas.CollectionHeap
+import Invoke.Lemmas.CollectionOps
 /-! # C17 — a task's namespace settings are the deep merge along its path, outer wins
 
 Property theorems only; the model is `Invoke/Model/Collection.lean` (`twc` = `Collection.task_with_config`,
@@ -145,6 +146,74 @@ theorem default_subcollection_settings_counterexample :
 theorem shallow_merge_counterexample :
     getLeaf [S "sec", S "x"] (shallowMerge b.cfg a.cfg) = none ∧
     getLeaf [S "sec", S "y"] (shallowMerge b.cfg a.cfg) = some (.i 2) := by decide
+
+/-! ## histories on one tree
+
+The real objects are mutable: `configure`, `add_task`, `add_collection` may be called on any collection of
+the tree at any time, between lookups.  `runHist` (`Model/CollectionOps.lean`) is the trace semantics of
+such a history; the harness replays the same steps on the real objects. -/
+
+/-- the answer to a lookup depends only on the tree AS IT IS NOW - the result of the mutations made so
+    far - never on which lookups were made earlier or when: a history splits at any point into "apply
+    the mutations so far, then go on from that tree" -/
+theorem history_lookup_depends_only_on_current_tree (c : Coll) (pre post : List HStep) :
+    runHist c (pre ++ post) = runHist c pre ++ runHist (applyOps (opsOf pre) c) post :=
+  runHist_append pre post c
+
+/-- …in particular two histories with the same mutations (whatever lookups they contain, in whatever
+    places) answer a final lookup alike -/
+theorem history_earlier_lookups_irrelevant (c : Coll) (pre pre' : List HStep) (addr p : List CName)
+    (h : opsOf pre = opsOf pre') :
+    (runHist c (pre ++ [HStep.look addr p])).getLast? = (runHist c (pre' ++ [HStep.look addr p])).getLast? := by
+  rw [runHist_append, runHist_append, h]
+  simp [runHist]
+
+/-- HEADLINE over histories.  After ANY sequence of `configure` / `add_task` / `add_collection` calls at any
+    depth, interleaved with any lookups, a lookup through the collection at `addr` that resolves returns the
+    fold of `merge_dicts` over the configurations - as they are in the tree produced by those calls - of
+    exactly the collections on the path from that collection to the holder of the task, outer last. -/
+theorem history_config_is_deep_merge_of_current_tree (c : Coll) (pre : List HStep) (addr p : List CName)
+    (t : Nat) (cfg : KVs)
+    (h : (runHist c (pre ++ [HStep.look addr p])).getLast? = some (.ok (t, cfg))) :
+    ∃ s chain, subAt addr (applyOps (opsOf pre) c) = some s ∧ IsChain s chain ∧ Holds (lastOf s chain) t ∧
+      mergeAlong (s.cfg :: chain.map Coll.cfg) = .ok cfg := by
+  rw [runHist_append] at h
+  simp only [runHist, List.getLast?_append, List.getLast?_singleton, Option.some_or, Option.some.injEq] at h
+  unfold lookAt at h
+  cases hs : subAt addr (applyOps (opsOf pre) c) with
+  | none => simp [hs] at h
+  | some s =>
+    simp only [hs] at h
+    obtain ⟨chain, hc, hh, hm⟩ := twc_chain s p t cfg h
+    exact ⟨s, chain, rfl, hc, hh, hm⟩
+
+/-- `configure` at any depth reaches exactly the collection addressed: afterwards that collection stores
+    `merge_dicts(old, options)` (so, by the headline theorem, every lookup passing through it sees the new
+    settings, however far above it the lookup starts) … -/
+theorem configure_updates_the_addressed_collection (c s : Coll) (addr : List CName) (opts m : KVs)
+    (hs : subAt addr c = some s) (hm : mergeKVs s.cfg opts = .ok m) :
+    ∃ s', subAt addr ((TreeOp.configure addr opts).apply c) = some s' ∧ s'.cfg = m :=
+  ⟨configureHere opts s, subAt_updAt _ addr c s hs, cfg_configureHere opts s m hm⟩
+
+/-- …and a mutation of a collection the lookup does not pass through (a sibling, at any depth) changes nothing -/
+theorem mutation_off_path_changes_nothing (o : TreeOp) (c : Coll) (p : List CName)
+    (h : visits o.addr c p = false) : (o.apply c).twc p = c.twc p :=
+  updAt_off_path o.here o.addr c p h
+
+set_option linter.unusedSimpArgs false in
+/-- non-vacuity, on the three-level tree above: the settings are asked through the root (by the default
+    shortcut `a`), then the GRANDCHILD `a.b` is configured, then they are asked again through the root and
+    through the middle collection (by an alias): both see the new `sec.x`, everything else is as before -/
+theorem history_deep_configure_is_seen_example :
+    runHist root [HStep.look [] [S "a"], .op (.configure [S "a", S "b"] [(S "sec", .dict [I "x" 5])]),
+      .look [] [S "a"], .look [S "a"] [S "b", S "tt"]] =
+    [.ok (1, [I "kb" 1, (S "sec", .dict [I "x" 1, I "y" 2, I "z" 3]), I "ka" 2, I "kr" 3]),
+     .ok (1, [I "kb" 1, (S "sec", .dict [I "x" 5, I "y" 2, I "z" 3]), I "ka" 2, I "kr" 3]),
+     .ok (1, [I "kb" 1, (S "sec", .dict [I "x" 5, I "y" 2]), I "ka" 2])] := by
+  simp +decide [runHist, lookAt, subAt, TreeOp.apply, TreeOp.here, TreeOp.addr, updAt, setKid, configureHere,
+    root, a, b, sib, S, I, twc_mk, twcKids, stepName, isEmptyName, transform, xfAux, xfChar, assoc,
+    lexGet, lexResult, mergeOuter, splitOnDot, mergeKVs.eq_1, mergeKVs.eq_2, mergeKVs.eq_3, mergeKVs.eq_4,
+    mergeKVs.eq_5, mergeKVs.eq_6, mergeKVs.eq_7, Inv.lookup, Inv.insert, Except.map]
 
 /-! ## freshness (object model) -/
 
